@@ -17,6 +17,14 @@ def units():
               "trusted": ["aiff_read_header / aiff_write_header frame contracts (not enforced: the parser itself is outside this unit)",
                           "codec initialisers leave container_data / container_close alone (frame contract, not enforced)",
                           "psf_fseek contract (enforced in file_io units)"]})
+    U.append({"name": "close.alac_close", "props": ["C16", "C15"], "harness": "alac_close.harness.c", "entry": "h_alac_close", "enforce": "alac_close",
+              "function": "alac.c:alac_close", "timeout": 600, "cbmc_flags": ["--object-bits", "9", "--unwindset", "alac_close_wrapped_for_contract_checking.0:5,alac_close.0:5"],
+              "replace": ["psf_fwrite", "alac_encode_block", "alac_get_magic_cookie", "alac_pakt_encode", "psf_save_write_chunk"],
+              # goto-instrument 6.11 aborts (get_loop_head_or_end) when a loop contract is attached to this loop (call with side effect in
+              # the loop condition): bounded stand-in instead -- at most 3 non-empty reads of the scratch file, unwound completely
+              "defines": ["-DTMP_READS_MAX=3"], "kind": "bounded(scratch file copied in <= 3 reads; everything else symbolic)",
+              "trusted": ["E1 stdio contracts (fseek, fread, fclose, remove) with ghost counters; the scratch file is finite",
+                          "frame contracts of alac_encode_block, alac_get_magic_cookie, alac_pakt_encode, psf_save_write_chunk (chunk unit), psf_fwrite (file_io units)"]})
     return U
 
 
